@@ -41,6 +41,16 @@ TIGHT = 1e-9        # float deviation allowed where the model is exactly invaria
 MODEL_TOL = 1e-10   # implementation vs fixed-point model
 
 
+def noise_floor(P, area):
+    """relative float64 rounding noise of the area of a face given by 1e-16-accurate unit vectors:
+    moving a corner by eps changes the area by about eps * edge length, so the relative noise is
+    ~ eps * perimeter / area (2e-11 for a compact face 0.01 degrees across, 1e-9 at 1e-4 degrees,
+    more for slivers).  Only used to widen the TIGHT comparisons and the convergence bound on
+    km-scale faces; the accuracy classes of the property are never widened."""
+    per = sum(vangle(P[i], P[(i + 1) % len(P)]) for i in range(len(P)))
+    return 2 * 2.2e-16 * per / max(float(area), 1e-300)
+
+
 def class_of(diam_deg):
     for lim, tol in CLASSES:
         if diam_deg <= lim:
@@ -77,16 +87,17 @@ def max_edge_deg(P):
     return math.degrees(max(vangle(P[i], P[(i + 1) % len(P)]) for i in range(len(P))))
 
 
-def is_convex(P, eps=1e-13):
+def is_convex(P, eps=1e-7):
+    """every corner on the inner side of (or on) every edge's great circle; the margin is relative to
+    the face size so that km-scale faces are judged like large ones"""
     n = len(P)
-    for i in range(n):
-        a, b, c = P[i], P[(i + 1) % n], P[(i + 2) % n]
-        if vdot(vcross(a, b), c) < -eps:
-            return False
-    # simple (no winding twice): every corner on the inner side of every edge
+    size = max(vangle(P[0], q) for q in P[1:])
     for i in range(n):
         nrm = vcross(P[i], P[(i + 1) % n])
-        if any(vdot(nrm, q) < -1e-12 for q in P):
+        ln = math.sqrt(vdot(nrm, nrm))
+        if ln == 0.0:
+            return False
+        if any(vdot(nrm, q) / ln < -eps * size for q in P):
             return False
     return True
 
@@ -266,8 +277,11 @@ def gen_face(rng, cls=None):
     shape = rng.choice(SHAPES)
     if shape == "collinear" and n < 4:
         shape = "hull"
-    cls = cls or rng.choice(["c10", "c10", "c30", "c30", "c65", "c65", "c65", "big"])
-    if cls == "c10":
+    cls = cls or rng.choice(["tiny", "tiny", "c10", "c10", "c30", "c30", "c65", "c65", "c65", "big"])
+    if cls == "tiny":              # km-scale and sub-km cells: 1e-4 .. 1e-2 degrees across, log-uniform
+        D = 10 ** rng.uniform(-4, -2)
+        n = rng.choice([3, 4, 8, n])
+    elif cls == "c10":
         D = rng.choice([rng.uniform(0.01, 1.0), rng.uniform(1.0, 9.95), 9.95])
     elif cls == "c30":
         D = rng.choice([rng.uniform(10.1, 29.9), 29.9])
@@ -281,6 +295,70 @@ def gen_face(rng, cls=None):
     k = rng.randrange(n)
     P = P[k:] + P[:k]
     return {"kind": "face", "n": n, "shape": shape, "place": pk, "cart": [list(p) for p in P]}
+
+
+def ll_to_xyz(lo, la):
+    """float conversion written so that (lon, lat) and (lon, -lat) get bit-identical x and y, and
+    (lon, lat) and (-lon, lat) bit-identical x and z (cos is even in floating point as well)"""
+    lo, la = math.radians(lo), math.radians(la)
+    return (math.cos(lo) * math.cos(la), math.sin(lo) * math.cos(la), math.sin(la))
+
+
+def gen_symmetric_face(rng):
+    """convex face symmetric about the equator and/or a meridian plane, listed counter-clockwise
+    from its south-west corner (the conventional order of structured meshes); every start corner is
+    checked on it"""
+    kind = rng.choice(["equator_quad", "equator_quad", "equator_hexagon", "meridian_quad", "both_quad", "equator_triangle"])
+    lon0 = rng.choice([0.0, 0.0, 90.0, 180.0, -135.0, rng.uniform(-180, 180)])
+    a = 10 ** rng.uniform(-3.3, 1.45)          # half width in degrees: 0.0005 .. 28
+    b = a * rng.uniform(0.5, 1.5)
+    b = min(b, 28.0)
+    if kind == "equator_quad":                 # trapezoid: NE mirrors SE, NW mirrors SW
+        a2 = a * rng.uniform(0.6, 1.0)
+        ll = [(lon0 - a, -b), (lon0 + a2, -b), (lon0 + a2, b), (lon0 - a, b)]
+    elif kind == "both_quad":
+        ll = [(lon0 - a, -b), (lon0 + a, -b), (lon0 + a, b), (lon0 - a, b)]
+    elif kind == "meridian_quad":
+        c = rng.uniform(-50, 50)
+        ll = [(lon0 - a, c - b), (lon0 + a, c - b), (lon0 + a * 0.8, c + b), (lon0 - a * 0.8, c + b)]
+    elif kind == "equator_hexagon":
+        ll = [(lon0 - a, -b * 0.5), (lon0, -b), (lon0 + a, -b * 0.5), (lon0 + a, b * 0.5), (lon0, b), (lon0 - a, b * 0.5)]
+    else:                                      # apex on the equator, base edge mirrored
+        ll = [(lon0 - a, -b), (lon0 + a, 0.0), (lon0 - a, b)]
+    ll = [(((lo + 180.0) % 360.0) - 180.0, la) for lo, la in ll]
+    P = [ll_to_xyz(lo, la) for lo, la in ll]
+    return {"kind": "face", "n": len(P), "shape": kind, "place": "symmetric", "cart": [list(p) for p in P],
+            "lonlat": [list(q) for q in ll], "all_starts": True}
+
+
+def latlon_mesh(rng, nlon, nlat, shift):
+    """closed latitude-longitude mesh with an ODD number of rows (the middle row is centred on the
+    equator), triangles at the poles, corners listed counter-clockwise from the south-west corner and
+    then rotated by `shift`; NOT rotated or renumbered, so the mirror symmetry is exact"""
+    lon0 = rng.choice([-180.0, 0.0, -180.0 + 180.0 / nlon])
+    lons = [((lon0 + 360.0 * i / nlon + 180.0) % 360.0) - 180.0 for i in range(nlon)]
+    half = [90.0 - 180.0 * j / nlat for j in range(1, (nlat - 1) // 2 + 1)]      # northern rings, pole -> equator
+    lats = [-h for h in half] + list(reversed(half))                              # exact mirror pairs, ascending
+    ll = [(0.0, -90.0), (0.0, 90.0)]
+    idx = {}
+    for j, la in enumerate(lats):
+        for i, lo in enumerate(lons):
+            idx[(i, j)] = len(ll)
+            ll.append((lo, la))
+    faces = []
+    nr = len(lats)
+    for i in range(nlon):
+        i2 = (i + 1) % nlon
+        faces.append([0, idx[(i2, 0)], idx[(i, 0)]])                              # south cap
+        for j in range(nr - 1):
+            faces.append([idx[(i, j)], idx[(i2, j)], idx[(i2, j + 1)], idx[(i, j + 1)]])   # SW SE NE NW
+        faces.append([idx[(i, nr - 1)], idx[(i2, nr - 1)], 1])                    # north cap
+    faces = [f[shift % len(f):] + f[:shift % len(f)] for f in faces]
+    w = 4 + rng.choice([0, 1])
+    nodes = [ll_to_xyz(lo, la) for lo, la in ll]
+    return {"kind": "latlon_mesh", "nodes": [list(p) for p in nodes], "lonlat": [list(q) for q in ll],
+            "table": [f + [FILL] * (w - len(f)) for f in faces], "closed": True,
+            "name": "latlon %dx%d shift %d" % (nlon, nlat, shift)}
 
 
 # ---------------------------------------------------------------------------------------------
@@ -391,7 +469,7 @@ def check_face(ck, case, st, default_rule, model_jobs=None, full=True):
     rng = ck.rng
     P = [tuple(p) for p in case["cart"]]
     n = len(P)
-    LL = [to_lonlat(p) for p in P]
+    LL = [tuple(q) for q in case["lonlat"]] if case.get("lonlat") else [to_lonlat(p) for p in P]
     diam = diameter_deg(P)
     lim, tol = class_of(diam)
     info0 = {"level": "function", "class": lim}
@@ -400,6 +478,8 @@ def check_face(ck, case, st, default_rule, model_jobs=None, full=True):
     out = {"diam": diam, "n": n}
     if not (exC > 0 and exS > 0):
         return out                      # generator produced a degenerate face: nothing to claim
+    nfl = noise_floor(P, exC)
+    tight = max(TIGHT, nfl)
     areas = {}
     try:
         for rule in RULES:
@@ -428,7 +508,7 @@ def check_face(ck, case, st, default_rule, model_jobs=None, full=True):
         for fam, top in (("triangular", 12), ("gaussian", 10)):
             for c in ("c", "s"):
                 et, e1 = errs[(c, fam, top)], errs[(c, fam, 1)]
-                if et > CONV_TOL[lim] or et > max(e1, 1e-12):
+                if et > max(CONV_TOL[lim], nfl) or et > max(e1, 1e-12, nfl):
                     ck.fail("converge", case, dict(info0, coords=c, family=fam),
                             detail="relerr(top)=%g relerr(order1)=%g bound=%g diam=%g" % (et, e1, CONV_TOL[lim], diam))
     if not full:
@@ -442,8 +522,8 @@ def check_face(ck, case, st, default_rule, model_jobs=None, full=True):
             ck.fail("coords_path", case, dict(info0, rule=rule[0], order=rule[1], path="function"),
                     detail="cart=%r sph=%r" % (a0, s0))
         d = abs(a0 - s0) / float(exC)
-        st.dev("coords(function)", d)
-        if d > TIGHT:
+        st.dev("coords(function)", d if diam >= 0.01 else 0.0)
+        if d > tight:
             ck.corr_failures.append({"what": "spherical vs cartesian input differ beyond float noise (model: equal, C05_coords)",
                                      "case": case, "rule": rule, "cart": a0, "sph": s0})
         # starting corner
@@ -466,8 +546,8 @@ def check_face(ck, case, st, default_rule, model_jobs=None, full=True):
         if tol is not None and (abs(ar - a0) > 2 * tol * float(exC) or abs(sr - s0) > 2 * tol * float(exC)):
             ck.fail("rigid_rotation", case, dict(info0, rule=rule[0], order=rule[1]), detail="a=%r rotated=%r R=%r" % (a0, ar, R))
         d = max(abs(ar - a0), abs(sr - s0)) / float(exC)
-        st.dev("rigid", d)
-        if d > TIGHT:
+        st.dev("rigid", d if diam >= 0.01 else 0.0)
+        if d > tight:
             ck.corr_failures.append({"what": "rigid rotation changes the area beyond float noise (model: invariant, C05_rigid)",
                                      "case": case, "rule": rule, "a": a0, "rotated": ar, "R": R})
         # additivity: cut along a diagonal (fan diagonal from corner 0 and another one)
@@ -483,7 +563,7 @@ def check_face(ck, case, st, default_rule, model_jobs=None, full=True):
                             detail="whole=%r pieces=%r+%r start=%d k=%d" % (aw, a1, a2, i0, kk))
                 d = abs(aw - a1 - a2) / float(exC)
                 st.dev("fan_additivity", d)
-                if d > 1e-11:
+                if d > max(1e-11, nfl):
                     ck.corr_failures.append({"what": "fan-diagonal cut does not add up (model: exact, C05_subdivision)",
                                              "case": case, "rule": rule, "whole": aw, "pieces": [a1, a2]})
         # additivity: star subdivision from an interior point (pieces are triangles; quadrature differs)
@@ -493,6 +573,27 @@ def check_face(ck, case, st, default_rule, model_jobs=None, full=True):
             if abs(sum(pieces) - a0) > 2 * tol * float(exC):
                 ck.fail("additivity", case, dict(info0, rule=rule[0], order=rule[1], cut="star"),
                         detail="whole=%r sum(pieces)=%r" % (a0, sum(pieces)))
+    # faces built symmetric about the equator / a meridian plane: EVERY starting corner, both inputs
+    if case.get("all_starts") and tol is not None:
+        for rule in rules:
+            for k in range(n):
+                try:
+                    ak = cart_area(P[k:] + P[:k], *rule)
+                    sk = sph_area(LL[k:] + LL[:k], *rule)
+                except Exception as ex:
+                    ck.fail("raises", case, dict(info0, call="calculate_face_area", shift=k), detail=repr(ex))
+                    continue
+                if relerr(ak, exC) > tol or abs(ak - areas[("c",) + rule]) > 2 * tol * float(exC):
+                    ck.fail("start_corner", case, dict(info0, rule=rule[0], order=rule[1], shift=k, coords="c", symmetric=True),
+                            detail="cartesian input, start corner %d: area=%r, start corner 0: %r, exact=%s"
+                            % (k, ak, areas[("c",) + rule], mp.nstr(exC, 17)))
+                if relerr(sk, exS) > tol or abs(sk - areas[("s",) + rule]) > 2 * tol * float(exS):
+                    ck.fail("start_corner", case, dict(info0, rule=rule[0], order=rule[1], shift=k, coords="s", symmetric=True),
+                            detail="lon/lat input, start corner %d: area=%r, start corner 0: %r, exact=%s"
+                            % (k, sk, areas[("s",) + rule], mp.nstr(exS, 17)))
+                if abs(ak - sk) > tol * float(exC):
+                    ck.fail("coords_path", case, dict(info0, rule=rule[0], order=rule[1], path="function", shift=k, symmetric=True),
+                            detail="start corner %d: cart=%r sph=%r" % (k, ak, sk))
     if model_jobs is not None:
         model_jobs.append((case, P, LL, areas))
     return out
@@ -652,11 +753,103 @@ def z_dropped_symptom(nodes_xyz, table, got, rule, order):
         return False
 
 
+MUT_TEMPLATES = [
+    # (op, args...) ; "D" = the default argument set, "R" = the case's other rule
+    [("compute_mut", "D"), ("compute", "D"), ("total", "D"), ("face_areas",)],
+    [("compute_mut", "D"), ("face_areas",), ("total", "D")],
+    [("face_areas_mut",), ("compute", "D"), ("total", "D"), ("compute", "R")],
+    [("compute_mut", "R"), ("compute", "R"), ("total", "R"), ("compute", "D"), ("compute_mut", "D"), ("compute", "D")],
+    [("compute_mut", "Rx"), ("compute", "Rx"), ("compute", "R")],
+    [("compute", "D"), ("set_coords",), ("compute", "D"), ("total", "D"), ("face_areas",)],
+    [("compute_mut", "R"), ("set_coords",), ("compute", "R"), ("compute_mut", "D"), ("total", "D")],
+]
+
+
+def check_mutation_history(ck, case, st, lon, lat, table, rule, default_rule, info0):
+    """results must not depend on what the caller did with earlier results, on earlier calls, or on
+    stale coordinates: every returned array is edited in place (areas and jacobian), coordinates are
+    replaced through the public setters, and each later answer is compared (exactly) with the same
+    call on a FRESH grid built from the current coordinates"""
+    import xarray as xr
+    rng = ck.rng
+    tmpl = case.get("mut_history")
+    if tmpl is None:
+        tmpl = [list(o) for o in rng.choice(MUT_TEMPLATES)]
+        for _ in range(rng.randrange(0, 3)):
+            tmpl.insert(rng.randrange(len(tmpl) + 1), list(rng.choice([("compute_mut", "D"), ("compute", "R"), ("total", "D"),
+                                                                        ("compute_mut", "R"), ("compute", "Rx")])))
+        case["mut_history"] = tmpl
+    cur = {"lon": list(lon), "lat": list(lat)}
+    refs = {}
+
+    def args_of(tag):
+        if tag == "D":
+            return (default_rule[0], default_rule[1], True)
+        if tag == "Rx":
+            return (rule[0], rule[1], False)
+        return (rule[0], rule[1], True)
+
+    def fresh(a):
+        key = (a, tuple(cur["lon"]), tuple(cur["lat"]))
+        if key not in refs:
+            r = build_grid(cur["lon"], cur["lat"], table).compute_face_areas(*a)
+            refs[key] = (np.array(r[0], dtype=float).copy(), np.array(r[1], dtype=float).copy())
+        return refs[key]
+    g = build_grid(lon, lat, table)
+    fa_valid = True          # face_areas comparable: not edited in place, not cached before a coordinate change
+    fa_cached = False
+    done = []
+    try:
+        for op in tmpl:
+            done.append(op)
+            if op[0] in ("compute", "compute_mut"):
+                a = args_of(op[1])
+                r = g.compute_face_areas(*a)
+                want = fresh(a)
+                if not (np.array_equal(np.asarray(r[0]), want[0]) and np.array_equal(np.asarray(r[1]), want[1])):
+                    ck.fail("cache", case, dict(info0, what="compute_face_areas depends on the history", history="in-place edits / setters"),
+                            detail="after %r: compute_face_areas%r = %r, fresh grid: %r" % (done, a, np.asarray(r[0])[:4], want[0][:4]))
+                    return
+                if op[0] == "compute_mut":
+                    r[0][...] = r[0] * 6371.0 ** 2 + 1.0          # the caller's own arrays
+                    r[1][...] = -3.0
+            elif op[0] == "total":
+                a = args_of(op[1])
+                tot = float(g.calculate_total_face_area(a[0], a[1]))
+                want = float(np.sum(fresh((a[0], a[1], True))[0]))
+                if tot != want and abs(tot - want) > 1e-12 * abs(want):
+                    ck.fail("cache", case, dict(info0, what="calculate_total_face_area depends on the history", history="in-place edits / setters"),
+                            detail="after %r: total%r = %r, fresh grid: %r" % (done, a[:2], tot, want))
+                    return
+            elif op[0] in ("face_areas", "face_areas_mut"):
+                v = g.face_areas.values
+                if fa_valid:
+                    want = fresh((default_rule[0], default_rule[1], True))[0]
+                    if not np.array_equal(np.asarray(v, dtype=float), want):
+                        ck.fail("cache", case, dict(info0, what="face_areas depends on the history", history="in-place edits / setters"),
+                                detail="after %r: face_areas = %r, fresh default computation: %r" % (done, np.asarray(v)[:4], want[:4]))
+                        return
+                fa_cached = True
+                if op[0] == "face_areas_mut":
+                    v[...] = v * 2.0 + 5.0
+                    fa_valid = False      # the cache exposes its storage (like every variable xarray holds): not claimed
+            else:                         # new node coordinates through the public setters
+                cur["lat"] = [x * 0.96 for x in cur["lat"]]
+                cur["lon"] = [((x + 11.0 + 180.0) % 360.0) - 180.0 for x in cur["lon"]]
+                g.node_lon = xr.DataArray(np.array(cur["lon"], dtype=float), dims=["n_node"])
+                g.node_lat = xr.DataArray(np.array(cur["lat"], dtype=float), dims=["n_node"])
+                if fa_cached:
+                    fa_valid = False      # a face_areas cached BEFORE the coordinates were replaced is not claimed here
+        st.count("mutation_history", " ".join(o[0] for o in tmpl)[:60])
+    except Exception as ex:
+        ck.fail("raises", case, dict(info0, call="mutation history"), detail="%r after %r" % (ex, done))
+
+
 def check_grid(ck, case, st, default_rule, model_jobs=None):
     rng = ck.rng
     nodes = [tuple(p) for p in case["nodes"]]
     table = case["table"]
-    LL = [to_lonlat(p) for p in nodes]
+    LL = [tuple(q) for q in case["lonlat"]] if case.get("lonlat") else [to_lonlat(p) for p in nodes]
     lon, lat = [p[0] for p in LL], [p[1] for p in LL]
     rows = [[i for i in r if i != FILL] for r in table]
     info0 = {"level": "grid", "gkind": case["kind"]}
@@ -725,6 +918,7 @@ def check_grid(ck, case, st, default_rule, model_jobs=None):
     except Exception as ex:
         ck.fail("raises", case, dict(info0, call="compute_face_areas"), detail=repr(ex))
         return
+    check_mutation_history(ck, case, st, lon, lat, table, rule, default_rule, info0)
     try:
         a_xyz = np.array(g.compute_face_areas(rule[0], rule[1], False)[0], dtype=float)
         xyz = list(zip(g.node_x.values.tolist(), g.node_y.values.tolist(), g.node_z.values.tolist()))
@@ -901,8 +1095,9 @@ def run_models(ck, face_jobs, grid_jobs, st, budget_pts, dim3=True):
             continue
         ma = mp.mpf(r[0]) / S
         d = float(abs(ma - mp.mpf(a)) / max(abs(ma), mp.mpf(10) ** -300))
-        st.dev("model_vs_impl(" + what + ")", d)
-        if d > MODEL_TOL:
+        PP = [tuple(q) for q in case["cart"]]
+        st.dev("model_vs_impl(" + what + ")", d if diameter_deg(PP) >= 0.01 else 0.0)
+        if d > max(MODEL_TOL, noise_floor(PP, abs(ma))):
             ck.corr_failures.append({"what": "model/implementation differ: " + what, "case": case, "rule": rule,
                                      "impl": a, "model": mp.nstr(ma, 20)})
     gres = run_model_par(ck, "c05_grid", glines)
@@ -911,12 +1106,13 @@ def run_models(ck, face_jobs, grid_jobs, st, budget_pts, dim3=True):
         if r is None or (isinstance(r, list) and r and r[0] == "ERR") or len(r) != len(arr):
             ck.corr_failures.append({"what": "model raised / shape: " + what, "case": case, "rule": rule, "model": str(r)[:200]})
             continue
+        grows = [[i for i in rr if i != FILL] for rr in case["table"]]
         for f, (pair, a) in enumerate(zip(r, arr)):
             ma = mp.mpf(pair[0]) / S
-            tiny = abs(ma) <= 1e-15
-            d = 0.0 if tiny else float(abs(ma - mp.mpf(float(a))) / abs(ma))
-            st.dev("model_vs_impl(" + what + ")", d)
-            if (abs(float(a)) > 1e-12) if tiny else (d > MODEL_TOL):
+            PP = [tuple(case["nodes"][i]) for i in grows[f]]
+            d = float(abs(ma - mp.mpf(float(a))) / abs(ma)) if ma != 0 else (0.0 if float(a) == 0.0 else 1.0)
+            st.dev("model_vs_impl(" + what + ")", d if diameter_deg(PP) >= 0.01 else 0.0)
+            if d > max(MODEL_TOL, noise_floor(PP, abs(ma))):
                 ck.corr_failures.append({"what": "model/implementation differ: " + what, "case": case, "rule": rule,
                                          "face": f, "impl": float(a), "model": mp.nstr(ma, 20)})
                 break
@@ -945,6 +1141,12 @@ def gen_cases(ck):
                                        math.sin(math.radians(la))))) for lo, la in ((170, -10), (-170, -10), (-170, 12), (170, 12))]})
     for _ in range(420 if quick else 6000):
         cases.append(gen_face(rng))
+    for _ in range(40 if quick else 600):
+        cases.append(gen_symmetric_face(rng))
+    meshes = [(12, 5), (16, 7), (20, 9), (36, 5)]
+    for i in range(4 if quick else 16):
+        nlon, nlat = meshes[i % 4] if quick else rng.choice(meshes)
+        cases.append(latlon_mesh(rng, nlon, nlat, i % 4))
     for _ in range(24 if quick else 400):
         cases.append(faces_grid(rng, rng.choice([1, 2, 3, 5, 8])))
     for _ in range(8 if quick else 120):
@@ -985,8 +1187,11 @@ def main(ck):
                       "the class limits; placed at random / pole inside / corner on a pole / edge over a pole / across "
                       "the antimeridian / prime meridian; random starting corner) through calculate_face_area for all "
                       "15 rules x 2 coordinate inputs; grids of unrelated faces (padding layouts, shuffled numbering) "
+                      "+ faces symmetric about the equator / a meridian plane listed from the SW corner (every start "
+                      "corner, both inputs) + km-scale faces down to 1e-4 degrees + latitude-longitude meshes with an "
+                      "equator-centred row (start corner shifted 0..3, not rotated) "
                       "and closed tilings refined to the class limit through Grid.compute_face_areas/face_areas/"
-                      "calculate_total_face_area with random call histories; non-trivial = every case (>=3 corners, "
+                      "calculate_total_face_area with random call histories, incl. histories that edit every returned array in place and replace node coordinates through the setters; non-trivial = every case (>=3 corners, "
                       "positive area); distinct = distinct corner coordinates")
     face_jobs, grid_jobs = [], []
     for idx, c in enumerate(cases):
